@@ -1,7 +1,7 @@
 #!/bin/sh
 # tools/dev/seed_run.sh <name>… — run the check of the seeded change's property (and any extra property given as name:Cxx)
 # against the changed tree /tmp/seedc/<name>; appends the outcome to seeded/<name>/detection.txt
-cd /verif
+cd "$(dirname "$0")/../.."
 for spec in "$@"; do
   name=${spec%%:*}; pid=${spec#*:}; [ "$pid" = "$spec" ] && pid=${name%_*}
   wt=/tmp/seedc/$name
@@ -16,4 +16,4 @@ for spec in "$@"; do
   { echo "check $pid tier=${TIER:-quick} against the changed tree: exit=$rc, $nv VIOLATION line(s)"; echo "$first"; echo "$why"; echo "$out" | tail -1; echo; } >> seeded/$name/detection.txt
 done
 # restore generated files for the unchanged tree
-python3 -c "import sys; sys.path.insert(0,'tools'); import translate; translate.run('/repo')" >/dev/null
+python3 -c "import sys; sys.path.insert(0,'tools'); import translate; translate.run("/repo")" >/dev/null
